@@ -77,7 +77,10 @@ type eventOwner struct {
 	notify    bool
 	consumers int32
 
-	last lib.QueueMPSC
+	// the last N messages. a new message pushes the oldest one out, which is
+	// not safe against the walk of a new subscriber: both take the lock
+	last     lib.QueueMPSC
+	lastLock sync.Mutex
 }
 
 func createTargetManager(tm gen.TargetManager) gen.TargetManager {
